@@ -17,7 +17,7 @@ cp "$SRC/$(basename $DEMO)" "$W/$DDIR/" || { echo "no demo file"; exit 2; }
 PKG=./$DDIR
 ( cd "$W" && go test -vet=off -count=1 $PKG >/tmp/vseed.out.$$ 2>&1 ); a=$?
 echo "demo without change: exit=$a (expect 0)"; [ $a -ne 0 ] && tail -5 /tmp/vseed.out.$$
-( cd "$W" && git apply "$SRC/patch.diff" ) || { echo "PATCH DOES NOT APPLY"; exit 2; }
+( cd "$W" && git apply "$SRC/patch.diff" ) || { echo "patch does not apply at HEAD: using the tree before fix c8af781"; ( cd "$W" && git checkout -q --detach 31d0fcb && git apply "$SRC/patch.diff" && { git diff 31d0fcb "$(git -C /repo rev-parse HEAD)" -- '*verif_export.go' internal/verifhook | git apply --allow-empty; } ) || { echo "PATCH DOES NOT APPLY"; exit 2; }; }
 ( cd "$W" && go build ./... ) ; echo "build with change: exit=$? (expect 0)"
 ( cd "$W" && go test -vet=off -count=1 $PKG >/tmp/vseed.out.$$ 2>&1 ); b=$?
 echo "demo with change: exit=$b (expect non-zero)"; grep -m3 -- '--- FAIL' /tmp/vseed.out.$$
